@@ -97,8 +97,9 @@ def isFieldByte (c : UInt8) : Bool := (32 ≤ c && c != 127) || c == 9
 /-- bytes allowed in host / path / query: visible, no separators of the request line -/
 def isTargetByte (c : UInt8) : Bool := 33 ≤ c && c != 127
 
+/-- host bytes: visible ASCII, none of `: @ / ? # [ ]` (reg-name / IPv4; IPv6 literals are C14's subject) -/
 def isHostByte (c : UInt8) : Bool :=
-  isTargetByte c && !([58, 64, 47, 63, 35, 91, 93].contains c)     -- none of `: @ / ? # [ ]`
+  33 ≤ c && c < 127 && !([58, 64, 47, 63, 35, 91, 93].contains c)
 
 def tokenOk (x : Bytes) : Bool := !x.isEmpty && x.all isTchar
 
